@@ -9,6 +9,7 @@ import Tahoe.Immutable.Uploadable
     `key K N SEGSIZE SECRET CHUNKS`             → `KEYHEX;SIHEX` (CHUNKS = hex,hex,… results of successive read() calls; `-` = empty read)
     `cap CONV URANDOM K N MAXSEG PT CHUNKS`     → `LIT;DATAHEX;0` | `CHK;KEYHEX;K;N;SIZE;SIHEX;PUSHED` | `error`
                                                   (CONV = N for no convergence secret)
+    `capon NSERVERS CONV URANDOM K N MAXSEG PT CHUNKS` → like `cap`, on a client that knows NSERVERS servers: adds the outcomes `NoServersError`
     `via KEY K N MAXSEG CHUNK DATA SIZES`       → `pos+len,…;LIT;DATAHEX;0` | `pos+len,…;CHK;KEYHEX;K;N;SIZE;PUSHED` | `…;error`
                                                   Uploader.upload on an IUploadable whose read() returns the bytes in pieces of
                                                   the cycling SIZES (`-` = one piece): the read(pos,len) calls of the CHK path, the result -/
@@ -53,6 +54,18 @@ def handle : List String → String
         | .lit d => s!"LIT;{hexOfBytes d};{r.sharesPushed}"
         | .chk key _ k n size => s!"CHK;{hexOfBytes key};{k};{n};{size};{hexOfBytes (siHash key)};{r.sharesPushed}"
     | _, _, _, _, _, _, _ => "bad-op"
+  | ["capon", ns, conv, urandom, k, n, maxSeg, pt, chunks] =>
+    let conv? : Option (Option (List UInt8)) := if conv == "N" then some none else (bytesOfHex conv).map some
+    match ns.toNat?, conv?, bytesOfHex urandom, k.toNat?, n.toNat?, maxSeg.toNat?, bytesOfHex pt, parseChunks chunks with
+    | some ns, some conv, some urandom, some k, some n, some maxSeg, some pt, some chunks =>
+      match uploadCapOn shaHasher (fun _ _ _ _ _ => []) ns conv urandom k n maxSeg pt chunks with
+      | .error => "error"
+      | .noServers => "NoServersError"
+      | .ok r =>
+        match r.cap with
+        | .lit d => s!"LIT;{hexOfBytes d};{r.sharesPushed}"
+        | .chk key _ k n size => s!"CHK;{hexOfBytes key};{k};{n};{size};{hexOfBytes (siHash key)};{r.sharesPushed}"
+    | _, _, _, _, _, _, _, _ => "bad-op"
   | ["via", key, k, n, maxSeg, chunk, data, sizes] =>
     match bytesOfHex key, k.toNat?, n.toNat?, maxSeg.toNat?, chunk.toNat?, bytesOfHex data, parseNatList sizes with
     | some key, some k, some n, some maxSeg, some chunk, some data, some sizes =>
